@@ -720,6 +720,12 @@ class Gen:
                 del self.scope[k]
         return self._merge_text(out)
 
+    def else_block(self, depth: int) -> list[dict[str, Any]]:
+        """An else branch; now and then completely empty (`{% else %}{% endif %}`)."""
+        if self.p(0.12):
+            return []
+        return self.block(depth)
+
     def _merge_text(self, stmts: list[dict[str, Any]]) -> list[dict[str, Any]]:
         out: list[dict[str, Any]] = []
         for s in stmts:
@@ -815,7 +821,7 @@ class Gen:
             ne = self.i(0, 2) if self.p(0.3) else 0
             s["elsifs"] = [[self.cond(1), self.block(depth - 1)] for _ in range(ne)]
             s["wc_elsifs"] = [self.wc() for _ in range(ne)]
-            s["else"] = self.block(depth - 1) if self.p(0.5) else None
+            s["else"] = self.else_block(depth - 1) if self.p(0.5) else None
             s["wc_else"] = self.wc()
             return s
         if k == "case":
@@ -828,7 +834,7 @@ class Gen:
                 whens.append([vals, self.block(depth - 1)])
             s = {"t": "case", "e": subj, "whens": whens, "wc": self.wc(), "wc_end": self.wc(),
                  "wc_whens": [self.wc() for _ in range(nw)], "wc_else": self.wc(),
-                 "else": self.block(depth - 1) if self.p(0.6) else None,
+                 "else": self.else_block(depth - 1) if self.p(0.6) else None,
                  "lead_ws": self.pick(["", "", "\n", " "]) }
             return s
         if k in ("for", "tablerow"):
@@ -866,7 +872,7 @@ class Gen:
                         self.scope[nm] = saved[nm]
                     else:
                         self.scope.pop(nm, None)
-            s["else"] = self.block(depth - 1) if (k == "for" and self.p(0.3)) else None
+            s["else"] = self.else_block(depth - 1) if (k == "for" and self.p(0.3)) else None
             return s
         if k in ("break", "continue"):
             return {"t": k, "wc": self.wc()}
